@@ -64,6 +64,10 @@ type caseIn struct {
 	L   uint32 `json:"l"`
 	GI  string `json:"gi"`
 	Src string `json:"src"`
+	// Raw: the value the claim event carries when it is not the canonical one (a mainnet claim made with junk in bits 32..63,
+	// which the bridge contract ignores): the claim is handed to the aggsender with this value, GI stays the value composed
+	// from the triple - what every consumer fed from the certificate has to carry
+	Raw string `json:"raw"`
 }
 
 type behaviour struct {
@@ -419,7 +423,7 @@ func (e *env) one(b behaviour) (err error) {
 			return fmt.Errorf("bad gi %q", c.GI)
 		}
 		gis[i] = g
-		w.Emit(tr.M{"ev": "case", "i": i + 1, "m": c.M, "r": split32(uint64(c.R)), "l": split32(uint64(c.L)), "gi": c.GI})
+		w.Emit(tr.M{"ev": "case", "i": i + 1, "m": c.M, "r": split32(uint64(c.R)), "l": split32(uint64(c.L)), "gi": c.GI, "nc": c.Raw != ""})
 		enc := bridgesync.GenerateGlobalIndex(c.M, c.R, c.L)
 		encs[i] = new(big.Int).Set(enc)
 		w.Emit(tr.M{"ev": "enc", "i": i + 1, "v": value(enc, len(enc.Bytes()))})
@@ -434,6 +438,13 @@ func (e *env) one(b behaviour) (err error) {
 	// ---- the claims as the bridge syncer would hand them to the aggsender
 	claims := make([]bridgesync.Claim, k)
 	for i := range claims {
+		if raw := b.Claims[i].Raw; raw != "" {
+			g, ok := new(big.Int).SetString(raw, 10)
+			if !ok || g.Sign() < 0 {
+				return fmt.Errorf("bad raw global index %q", raw)
+			}
+			gis[i] = g
+		}
 		var meta []byte
 		if e.rng.Intn(2) == 0 {
 			meta = make([]byte, 1+e.rng.Intn(40))
